@@ -89,7 +89,7 @@ def prepare(ch):
         prep.key = g.keyfn()
         ops = []
         for _ in range(ch.draw(2 * len(items) + 3)):
-            ops.append((ch.weighted([2, 3]), ch.draw(3)))  # (0 advance groupby | 1 advance group -i)
+            ops.append((ch.weighted([4, 6, 1]), ch.draw(3)))  # (0 advance groupby | 1 advance group -i | 2 close group -i)
         prep.ops = ops
     return prep
 
@@ -397,6 +397,16 @@ async def consumer_groupby(prep, run, cut, res, fault=None):
                     if src.must_release and not src.released:
                         problems.append(("groupby_source_not_released", "raise", cut))
                     break
+            elif op == 2:
+                # closing a group (live or stale, once or again) ends that group; it never fails
+                grp = groups[-1 - (i % len(groups))]
+                try:
+                    await grp.aclose()
+                    await grp.aclose()
+                except Cancel:
+                    raise
+                except BaseException as err:
+                    problems.append(("aclose_raised", type(err).__name__, "group: " + repr(err)))
             else:
                 grp = groups[-1 - (i % len(groups))]
                 try:
@@ -416,6 +426,15 @@ async def consumer_groupby(prep, run, cut, res, fault=None):
             problems.append(("aclose_raised", type(err).__name__, repr(err)))
         if src.must_release and not src.released:
             problems.append(("groupby_source_not_released", "close", cut))
+        # the groups that were handed out may be closed by their consumers afterwards as well
+        for grp in groups:
+            try:
+                await grp.aclose()
+            except Cancel:
+                raise
+            except BaseException as err:
+                problems.append(("aclose_raised", type(err).__name__, "group after groupby.aclose(): " + repr(err)))
+                break
     except Cancel:
         raise
     except BaseException as err:
